@@ -232,6 +232,19 @@ def work_api(task, p):
             obs[c].append(("prepare(witness state)", cst, g, lab))
             if B and rnd.random() < 0.5 and c in alldist:
                 refeed(p, n, c, Stabilizer(ws.strings(gens, n)), rnd, alldist[c])
+        # the state given in plain graph form (a random graph of the orbit): as a Graph object and as strings X_v Z_N(v)
+        from htstabilizer.graph import Graph
+        import numpy as np
+        code = rnd.choice(orb[B])
+        rows = lcorbit.adj_rows(code, n)
+        for c in confs:
+            if B in payload[c]:
+                if rnd.getrandbits(1):
+                    arg = Stabilizer(Graph(np.array([[(rows[a] >> b) & 1 for b in range(n)] for a in range(n)], dtype=np.int8)))
+                else:
+                    arg = Stabilizer(ws.strings(lcorbit.graph_gens(code, n), n))
+                cst, g, lab = delivered_cost(get_preparation_circuit, arg, c, n)
+                obs[c].append(("prepare(graph form)", cst, g, lab))
         for _ in range(2):
             m = ws.member(B, n, rnd, orb[B])
             for c in reversed(confs):                                             # dense first
